@@ -1,7 +1,7 @@
 (* C03 — Delete/Erase/Slice remove exactly the requested residues and features
    follow.  Delete maps every location through Expand(i, -n); Slice through
    Expand(end, end-len) then Expand(0, -start). *)
-From GTS Require Import Base Arith Loc Seq BaseLemmas LocProofs EditProofs SeqProofs JoinDen JoinLift.
+From GTS Require Import Base Arith Loc Seq BaseLemmas LocProofs EditProofs SeqProofs JoinDen JoinLift UndoProofs.
 Open Scope Z_scope.
 
 (* residues: seq[:i] + seq[i+n:] *)
@@ -44,6 +44,27 @@ Example C03_joins_example :
   expand l 3 (- 2) = Ok (Joined [Ranged 0 7 false false; Point 9]) /\
   k1_afterb (fun x => expand x 9 (- 2)) l = false.   (* the K1 shape: Point 11 lands on the end 9 *)
 Proof. vm_compute. repeat split; reflexivity. Qed.
+
+(* Slice [s,e) of a sequence of length L maps every kept location through
+   Expand(e, e-L) then Expand(0, -s).  For every location without join(...):
+   both steps succeed and the result denotes the two deletions of what it
+   denoted; for positions inside the sequence that is exactly the residues in
+   the window [s,e), re-based to 0, in the same order and on the same strand.
+   PARTIAL: join(...) in the input and the wrap-around window (a rotation
+   first) are decided by the correspondence and the oracle. *)
+Theorem C03_slice_den_partial : forall s e L, 0 <= s -> e <= L -> forall l,
+  jfree l = true -> ord_ok l = true ->
+  exists l1 l2, expand l e (e - L) = Ok l1 /\ expand l1 0 (- s) = Ok l2 /\
+    den l2 = del_den 0 s (del_den e (L - e) (den l)) /\ jfree l2 = true /\ ord_ok l2 = true.
+Proof. exact slice_loc_den. Qed.
+Print Assumptions C03_slice_den_partial.
+
+Theorem C03_slice_window : forall s e L d, 0 <= s <= e -> e <= L ->
+  Forall (fun x => 0 <= fst x < L) d ->
+  del_den 0 s (del_den e (L - e) d) =
+  map (onpos (fun x => x - s)) (filter (fun x => (s <=? fst x) && (fst x <? e)) d).
+Proof. exact slice_window_den. Qed.
+Print Assumptions C03_slice_window.
 
 (* the metadata clause: REFERENCE base ranges of a slice (GenBankFields.Slice,
    model refs_slice).  A kept range is the old range cut to the window and
